@@ -14,5 +14,6 @@ for id in "$@"; do
   s=$(date +%s)
   out=$(VERIF_SEED=${VERIF_SEED:-1} ./check "$id" quick 2>&1); rc=$?
   sigs=$(echo "$out" | grep -E "^  signature:" | sed 's/  signature: //' | sort -u | head -4 | tr '\n' ';')
-  echo "MUTANT $(basename "$(dirname "$patch")")/$(basename "$patch") check=$id rc=$rc time=$(( $(date +%s) - s ))s sigs=[$sigs]"
+  d=$(basename "$(dirname "$patch")"); [ "$d" = OUT ] && d=$(basename "$(dirname "$(dirname "$patch")")")
+  echo "MUTANT $d/$(basename "$patch") check=$id rc=$rc time=$(( $(date +%s) - s ))s sigs=[$sigs]"
 done
